@@ -16,11 +16,20 @@ FUT = ("join", "try_join", "race", "race_ok")
 TRY = ("try_join", "race_ok")
 
 
+def pick_child(rng, n):
+    """which child an operation names: uniform for small containers; for large ones mostly the indexes next to the 64-bit block boundaries of the
+       readiness bit set and to the inline capacity of the small vectors, and the two ends"""
+    if n > 16 and rng.random() < 0.6:
+        cand = [c for c in (0, 1, 22, 23, 24, 62, 63, 64, 65, 127, 128, 129, n - 2, n - 1) if 0 <= c < n]
+        return rng.choice(cand)
+    return rng.randrange(n)
+
+
 def fires(rng, n, p=0.35, kmax=3):
     f = []
     if n > 0 and rng.random() < p:
         for _ in range(rng.randint(1, 2)):
-            f.append("s" if rng.random() < 0.5 else f"{rng.randrange(n)}.{rng.randrange(kmax)}")
+            f.append("s" if rng.random() < 0.5 else f"{pick_child(rng, n)}.{rng.randrange(kmax)}")
     return ("!" + "+".join(f) + ":") if f else ""
 
 
@@ -75,7 +84,7 @@ def ops_adversarial(rng, n, maxops=14, drop=0.04):
         elif r < 0.6:
             ops.append("q")
         elif r < 1.0 - drop and n > 0:
-            ops.append(f"f{rng.randrange(n)}.{rng.randrange(3)}")
+            ops.append(f"f{pick_child(rng, n)}.{rng.randrange(3)}")
         else:
             ops.append("d")
     return ops
@@ -88,7 +97,7 @@ def ops_executor(rng, n, rounds=10, drop=0.03):
     for _ in range(rng.randint(1, rounds)):
         if n > 0:
             for _ in range(rng.randint(1, 2)):
-                c = rng.randrange(n)
+                c = pick_child(rng, n)
                 ops.append(f"f{c}.{rng.randrange(0, 4)}")
         ops.append("p" if rng.random() < 0.8 else "q")
         if rng.random() < drop:
@@ -123,11 +132,16 @@ def pick_container(rng, cfg, comb, allow_zero=True):
     return cont, n
 
 
-def gen_fixed(rng, cfg, combs, count, tag, panic=0.03, style="mixed", allow_zero=True):
+def gen_fixed(rng, cfg, combs, count, tag, panic=0.03, style="mixed", allow_zero=True, large=False):
+    """large: only containers beyond the boundaries (arrays of 23 / 65, Vecs of 22 .. 200 children)"""
     out = []
     for c in range(count):
         comb = rng.choice(combs)
-        cont, n = pick_container(rng, cfg, comb, allow_zero)
+        if large:
+            cont = "array" if (cfg == "nostd" or rng.random() < 0.4) else "vec"
+            n = rng.choice([23, 65]) if cont == "array" else rng.choice(VEC_BOUNDARY)
+        else:
+            cont, n = pick_container(rng, cfg, comb, allow_zero)
         if comb in FUT:
             scs = ";".join(fscript(rng, n, i, comb in TRY, panic, 0.6 if comb == "race_ok" else 0.3) for i in range(n))
         else:
